@@ -1,8 +1,8 @@
 SPECIFICATION Spec
 CONSTANTS
   MaxDepth = 2
-  LeafKinds = {"bool","int","int8","int16","int32","int64","uint","uint8","uint16","uint32","uint64","float32","float64","string","bytes","number","raw","time","any","nany","iface","M_val","M_ptr","TM_val","TM_ptr","MU_both","TMK","MI","TS","TI"}
-  Wrappers = {"ptr","slice","array2","array1","mapstr","mapint","maptm","mapts","struct1","structopt"}
+  LeafKinds = {"bool","int","int8","int16","int32","int64","uint","uint8","uint16","uint32","uint64","float32","float64","string","bytes","number","raw","time","any","nany","iface","M_val","M_ptr","TM_val","TM_ptr","MU_both","TMK","MI","TS","TI","MB","NPI"}
+  Wrappers = {"ptr","slice","array2","array1","mapstr","mapint","maptm","mapts","mapkm","struct1","structopt"}
   Emit = FALSE
 INVARIANTS TypeOK NoPtrPtr
 CHECK_DEADLOCK FALSE
